@@ -13,4 +13,11 @@ for d in seeded/*/; do
   first=$(echo "$out" | grep '^VIOLATION' | head -1 | sed 's/.*obligation=//')
   und=$(echo "$out" | grep -c '^UNDECIDED')
   echo "$n: rc=$rc violations=$v undecided=$und first=[$first]"
+  python3 - "$PWD/$d/meta.json" "$rc" "$v" "$first" "$(echo "$out" | grep '^VIOLATION' | sed 's/.*obligation=//' | paste -sd';')" <<'P'
+import json,sys,os
+p,rc,v,first,allv=sys.argv[1:6]
+m=json.load(open(p)) if os.path.exists(p) else {}
+m["check_result"]={"command":"git -C /repo apply patch.diff; /verif/check %s quick; git -C /repo checkout -- ."%m.get("breaks_property","?"),"exit_code":int(rc),"violations":int(v),"failed_obligations":[x for x in allv.split(';') if x],"detected":int(rc)==1 and int(v)>0}
+json.dump(m,open(p,'w'),indent=1)
+P
 done
